@@ -23,6 +23,9 @@ const A: &[&str] = &[
     "import b\nimport l\npub fn main() { l.lib_fn(b.inc(1)) }\nfn local(x) { x + 1 }\npub fn both(y) { #(local(y), main()) }\n",
     "import b.{type T, T, inc}\npub fn main() { inc(T(1).v) }\nfn local(x: T) { x.v }\npub fn both(y) { #(local(y), main()) }\n",
     "pub fn main() { 1 }\npub fn p(x, k) { q(x, k) }\npub fn q(y, j) { p(y, j) }\npub fn r(z, w) { #(p(z, w), q(w, z), fn(u, v) { #(v, u) }) }\n",
+    // a recursion group whose members show the group's type variables in different orders: the
+    // letters must not depend on the order in which the group's functions are finished
+    "pub fn main() { 1 }\npub fn f(x, y) { g(y, x) }\npub fn g(a, b) { f(b, a) }\npub fn h(c, d, e) { #(f(c, d), i(e, d, c)) }\npub fn i(s, t, u) { h(u, s, t) }\n",
 ];
 
 const B: &[&str] = &[
